@@ -4,13 +4,13 @@ From V.lib Require Import Base.
 From V.model Require Import Requests Sync.
 
 (* observation = code :: [ready; pending; start; lasthash; nreq; ntoreq; linked; inverse; L] ++ ids(L) ++ payload *)
-Record dg := DG { d_ready : bool; d_linked : bool; d_inverse : bool; d_nreq : Z; d_chain : list Z; d_payload : list Z }.
+Record dg := DG { d_ready : bool; d_linked : bool; d_inverse : bool; d_nreq : Z; d_start : Z; d_chain : list Z; d_payload : list Z }.
 
 Definition parse_obs (ob : obs) : option dg :=
   match ob with
-  | _ :: r :: _ :: _ :: _ :: nreq :: _ :: lk :: inv :: L :: rest =>
+  | _ :: r :: _ :: st :: _ :: nreq :: _ :: lk :: inv :: L :: rest =>
       if (L <? 0) || (zlen rest <? L) then None
-      else Some (DG (negb (r =? 0)) (negb (lk =? 0)) (negb (inv =? 0)) nreq
+      else Some (DG (negb (r =? 0)) (negb (lk =? 0)) (negb (inv =? 0)) nreq st
                     (take (Z.to_nat L) rest) (drop (Z.to_nat L) rest))
   | _ => None
   end.
@@ -35,8 +35,9 @@ Fixpoint zeq (a b : list Z) : bool :=
   | _, _ => false
   end.
 
-(* code of the objection or 0 *)
-Definition c02_step (MAXR : Z) (prev : list Z) (o : op) (d : dg) : Z :=
+(* code of the objection or 0.  pstart = the start height in the digest BEFORE the step (-1: start block
+   not found yet; -2: no digest seen yet, the first step) *)
+Definition c02_step (MAXR : Z) (pstart : Z) (prev : list Z) (o : op) (d : dg) : Z :=
   if negb (d_linked d) then 201 else                       (* a stored block's parent is not the block below it *)
   if negb (d_inverse d) then 202 else                      (* height->hash and hash->height are not inverse *)
   if d_nreq d >? MAXR then 203 else                        (* more than ten requested blocks outstanding *)
@@ -50,26 +51,32 @@ Definition c02_step (MAXR : Z) (prev : list Z) (o : op) (d : dg) : Z :=
       | _ => if negb (zeq (d_chain d) prev) then 214 else 0  (* the chain changed without an announcement *)
       end
   | OHeaders _ =>
-      (* the chain may be reverted to a fork point (never below genesis) and extended by
-         pre-start headers; everything kept is a prefix of what was there *)
-      if zlen (common_prefix prev (d_chain d)) <? 1 then 221 else 0
+      (* the chain may be reverted to a fork point (never below genesis); everything kept is a prefix of
+         what was there *)
+      if zlen (common_prefix prev (d_chain d)) <? 1 then 221 else
+      (* once the start block is found a headers message only ever REVERTS: every block above the fork
+         point enters through a process step (requested, processed, announced at fork+1, fork+2, ...) *)
+      if (0 <=? pstart) && negb (is_prefix (d_chain d) prev) then 222 else
+      (* before that it may also store bare headers - but only below the start block: in the message
+         that finds the start block at height s nothing is stored at height >= s *)
+      if (pstart =? -1) && (0 <=? d_start d) && (d_start d <? zlen (d_chain d)) then 223 else 0
   | _ => if negb (zeq (d_chain d) prev) then 231 else 0     (* no other step touches the chain *)
   end.
 
-Fixpoint c02_from (MAXR : Z) (prev : list Z) (i : Z) (ops : list op) (tr : list obs) : option (Z * obs) :=
+Fixpoint c02_from (MAXR : Z) (pstart : Z) (prev : list Z) (i : Z) (ops : list op) (tr : list obs) : option (Z * obs) :=
   match ops, tr with
   | o :: ops', ob :: tr' =>
       match parse_obs ob with
       | None => Some (i, [299])
       | Some d =>
-          let code := c02_step MAXR prev o d in
-          if negb (code =? 0) then Some (i, [code]) else c02_from MAXR (d_chain d) (i + 1) ops' tr'
+          let code := c02_step MAXR pstart prev o d in
+          if negb (code =? 0) then Some (i, [code]) else c02_from MAXR (d_start d) (d_chain d) (i + 1) ops' tr'
       end
   | [], [] => None
   | _, _ => Some (i, [297])
   end.
 
-Definition c02_monitor (MAXR : Z) : checker op := fun ops tr => c02_from MAXR [0] 0 ops tr.
+Definition c02_monitor (MAXR : Z) : checker op := fun ops tr => c02_from MAXR (-2) [0] 0 ops tr.
 
 (* C12 (chain part): steps of untrusted connections change nothing the trusted sync depends on *)
 Fixpoint c12_from (prev : list Z) (i : Z) (ops : list op) (tr : list obs) : option (Z * obs) :=
